@@ -95,7 +95,7 @@ var c11OpTemplates = []string{
 	"func() (r int) { defer func() { r = r / id(0) }(); return 1 }()", "func() (r int) { defer func() { recover(); r = 7 }(); return xs[i] }()", "var z struct{}; var y [0]int; println(z == struct{}{}, len(y), y == [0]int{})", "type Z [0]func(); var z Z; println(len(z))",
 	"var aa [][]int; aa = append(aa, nil); aa[0] = append(aa[0], i); println(aa[0][0], len(aa[j]))", "mm := map[string]map[string]int{}; mm[s][t] = 1", "mm := map[string][]int{}; mm[s] = append(mm[s], i); println(mm[s][0])", "ms := map[string]*S{}; ms[s].A = 1", "ms := map[string]S{}; println(ms[s].A)",
 	"c := make(chan int); close(c)", "var c chan int; c <- 1", "select {}", "x, y := i, j; x, y = y, x; xs[x], xs[y] = xs[y], xs[x]; println(xs[0])", "i, xs[i] = j, k; println(i, xs[0])", "xs[i], i = k, j; println(i)", "p, p.A = pnil, 5", "var q *S; q, q.A = p, 5; println(q.A)",
-	"println(len(xs[j:i]))", "println(len(s[j:i]))", "println(xs[len(xs)])", "println(xs[-i])", "println(cap(xs[i:]) - len(xs))", "ys := xs[i:j]; ys = append(ys, 99); println(xs[j %% len(xs)])", "println(min(a, b), max(a, b))", "println(min(f, g), max(f, g), min(s, t))", "clear(m); clear(xs); println(len(m), xs[0])",
+	"println(len(xs[j:i]))", "println(len(s[j:i]))", "println(xs[len(xs)])", "println(xs[-i])", "println(cap(xs[i:]) - len(xs))", "ys := xs[i:j]; ys = append(ys, 99); println(xs[j %% len(xs)])",
 	"var u8 uint8 = uint8(a); println(u8 + 200, u8 * u8, -u8)", "var i8 int8 = int8(a); println(i8 * i8, -i8, i8 / int8(b|1))", "x := a; x *= x; x *= x; x *= x; println(x)", "println(a*b/b == a)", "var d T; println(a / (d + b - b))", "println(i / j, i % j, k / (i - i))", "println(f / (g - g), int(f/(g-g)))",
 	"println(uint(i), uint32(j), int32(k << 31), uint16(i * j))", "println(string(rune(k)), string(rune(-1)), string(rune(0x10ffff+i)))", "println(strconv.Itoa(i), strconv.Quote(s))", "n, err2 := strconv.Atoi(s); println(n, err2)", "println(strings.Repeat(s, i))", "println(strings.Index(s, t), strings.Split(s, t), strings.Fields(s))",
 	"println(s[i:j:k])", "println(it.(*S).A)", "println(it.(S).A)", "var n interface{}; println(n.(int))", "var n I; n.(*S).Set(1)", "f2 := it.Get; println(f2())", "f2 := pnil.Get; println(f2())", "f2 := S.Get; println(f2(S{A: i}))", "f2 := (*S).Set; f2(pnil, 1)", "f2 := I.Get; println(f2(it))", "var n I; f2 := n.Get; println(f2())",
@@ -227,8 +227,9 @@ func c11GenFlow(rt *rapid.T) (string, []string) {
 			fmt.Fprintf(&b, "\t{\n\ti := 0\n\tvar fs []func() int\nL%d:\n\tif i < %d {\n\t\tv := i\n\t\tfs = append(fs, func() int { v++; return v })\n\t\ti++\n\t\tgoto L%d\n\t}\n\tfor _, f := range fs {\n\t\tprintln(f())\n\t}\n\t}\n", w, n, w)
 		case "labelnest":
 			kind := rapid.SampledFrom([]string{"break A", "continue A", "break B", "continue B", "break", "goto C"}).Draw(rt, l("kind", 0))
-			fmt.Fprintf(&b, "\t{\n\tn := 0\nA%[1]d:\n\tfor i := 0; i < 3; i++ {\n\tB%[1]d:\n\t\tfor j := 0; j < 3; j++ {\n\t\t\tv := i * j\n\t\t\tdefer func() { _ = v }()\n\t\t\tswitch {\n\t\t\tcase v == 2:\n\t\t\t\tn++\n\t\t\t\t%[2]s\n\t\t\tcase v > 2:\n\t\t\t\tcontinue B%[1]d\n\t\t\t}\n\t\t\tn += 10\n\t\t\tif n > 1000 {\n\t\t\t\tbreak A%[1]d\n\t\t\t}\n\t\t}\n\t}\nC%[1]d:\n\tprintln(n)\n\t}\n", w,
-				strings.NewReplacer(" A", fmt.Sprintf(" A%d", w), " B", fmt.Sprintf(" B%d", w), " C", fmt.Sprintf(" C%d", w)).Replace(kind))
+			fmt.Fprintf(&b, "\t{\n\tn := 0\nA%[1]d:\n\tfor i := 0; i < 3; i++ {\n\tB%[1]d:\n\t\tfor j := 0; j < 3; j++ {\n\t\t\tv := i * j\n\t\t\tdefer func() { _ = v }()\n\t\t\tswitch {\n\t\t\tcase v == 2:\n\t\t\t\tn++\n\t\t\t\t%[2]s\n\t\t\tcase v > 2:\n\t\t\t\tcontinue B%[1]d\n\t\t\t}\n\t\t\tn += 10\n\t\t\tif n > 1000 {\n\t\t\t\tbreak A%[1]d\n\t\t\t}\n\t\t}\n\t}\n%[3]s\tprintln(n)\n\t}\n", w,
+				strings.NewReplacer(" A", fmt.Sprintf(" A%d", w), " B", fmt.Sprintf(" B%d", w), " C", fmt.Sprintf(" C%d", w)).Replace(kind),
+				map[bool]string{true: fmt.Sprintf("C%d:\n", w), false: ""}[kind == "goto C"])
 		case "rangeclosure":
 			over := rapid.SampledFrom([]string{"[]int{1, 2, 3}", "[3]int{1, 2, 3}", "\"abc\"", "map[int]int{1: 1}", "3", "&[2]int{1, 2}"}).Draw(rt, l("over", 0))
 			fmt.Fprintf(&b, "\t{\n\tvar fs []func() int\n\tfor k, v := range %s {\n\t\tk2 := k\n\t\tfs = append(fs, func() int { k2++; _ = v; return int(k2) })\n\t\tif k2 > 100 {\n\t\t\tcontinue\n\t\t}\n\t}\n\tfor _, f := range fs {\n\t\tprintln(f())\n\t}\n\t}\n", over)
